@@ -870,6 +870,18 @@ func c07Mask(p *core.Program, r *core.Report, reg *registryResult) {
 							if !ok || i >= len(as.Lhs) {
 								continue
 							}
+							// this.Dbc = maskDbcPassword(this.Dbc): a string helper of the package that runs the
+							// value through the key/value rewriter once per separator
+							if lsel, isSel := ast.Unparen(as.Lhs[i]).(*ast.SelectorExpr); isSel && lsel.Sel.Name == "Dbc" && len(call.Args) == 1 {
+								if asel, isA := ast.Unparen(call.Args[0]).(*ast.SelectorExpr); isA && asel.Sel.Name == "Dbc" {
+									if seps := maskHelperSeps(p, info, call); len(seps) > 0 {
+										for _, sp := range seps {
+											out = append(out, paths.Event{Kind: "MASK", Arg: sp, Pos: as.Pos()})
+										}
+										continue
+									}
+								}
+							}
 							if isCallTo(info, call, core.ModPath+"/util/paramtext", "NewParamKVSeperate") && len(call.Args) == 3 {
 								if id, ok := as.Lhs[i].(*ast.Ident); ok {
 									sep, _ := mctx.constStr(call.Args[1])
@@ -1174,4 +1186,122 @@ func c07Caps(p *core.Program, r *core.Report) {
 			return true
 		})
 	}
+}
+
+// maskHelperSeps: call is f(x) with f a function of the module taking one string and returning one;
+// f's body, read in order, keeps one "current" string (its parameter, reassigned or not) and for each
+// separator builds the key/value view of the current string and takes ToStringStr("password", …) of
+// it as the new current string; what it returns is the current string. Returns the separators, or nil
+// when the body is anything else.
+func maskHelperSeps(p *core.Program, info *types.Info, call *ast.CallExpr) []string {
+	fn := calleeFunc(info, call)
+	if fn == nil {
+		return nil
+	}
+	hf := p.FuncOf(fn)
+	if hf == nil || hf.Decl.Body == nil || hf.Decl.Recv != nil {
+		return nil
+	}
+	sig := fn.Type().(*types.Signature)
+	if sig.Params().Len() != 1 || sig.Results().Len() != 1 {
+		return nil
+	}
+	hinfo := hf.Pkg.TypesInfo
+	mctx := &maskCtx{p: p, info: hinfo}
+	cur := map[types.Object]bool{hinfo.Defs[hf.Decl.Type.Params.List[0].Names[0]]: true}
+	views := map[types.Object]string{} // key/value view of the current string -> separator
+	var seps []string
+	isCur := func(e ast.Expr) bool {
+		id, ok := ast.Unparen(e).(*ast.Ident)
+		return ok && cur[hinfo.ObjectOf(id)]
+	}
+	// masked(e): e is view.ToStringStr("password", _) of a view of the current string; returns its separator
+	masked := func(e ast.Expr) (string, bool) {
+		c, ok := ast.Unparen(e).(*ast.CallExpr)
+		if !ok || len(c.Args) != 2 {
+			return "", false
+		}
+		sel, ok := c.Fun.(*ast.SelectorExpr)
+		if !ok || sel.Sel.Name != "ToStringStr" {
+			return "", false
+		}
+		if key, _ := mctx.constStr(c.Args[0]); key != "password" {
+			return "", false
+		}
+		switch x := ast.Unparen(sel.X).(type) {
+		case *ast.Ident:
+			sp, ok := views[hinfo.ObjectOf(x)]
+			return sp, ok
+		case *ast.CallExpr:
+			if isCallTo(hinfo, x, core.ModPath+"/util/paramtext", "NewParamKVSeperate") && len(x.Args) == 3 && isCur(x.Args[0]) {
+				return mctx.constStr(x.Args[1])
+			}
+		}
+		return "", false
+	}
+	okShape := true
+	var walk func(list []ast.Stmt)
+	walk = func(list []ast.Stmt) {
+		for _, st := range list {
+			switch v := st.(type) {
+			case *ast.AssignStmt:
+				if len(v.Lhs) != 1 || len(v.Rhs) != 1 {
+					okShape = false
+					continue
+				}
+				lid, ok := v.Lhs[0].(*ast.Ident)
+				if !ok {
+					okShape = false
+					continue
+				}
+				lo := hinfo.ObjectOf(lid)
+				if c, ok := ast.Unparen(v.Rhs[0]).(*ast.CallExpr); ok && isCallTo(hinfo, c, core.ModPath+"/util/paramtext", "NewParamKVSeperate") && len(c.Args) == 3 && isCur(c.Args[0]) {
+					if sp, ok := mctx.constStr(c.Args[1]); ok {
+						views[lo] = sp
+						continue
+					}
+				}
+				if sp, ok := masked(v.Rhs[0]); ok {
+					seps = append(seps, sp)
+					cur[lo] = true
+					continue
+				}
+				okShape = false
+			case *ast.IfStmt:
+				// an early way out for the empty string: if s == "" { return s }
+				if v.Else == nil && len(v.Body.List) == 1 {
+					if rs, ok := v.Body.List[0].(*ast.ReturnStmt); ok && len(rs.Results) == 1 && (isCur(rs.Results[0]) || isConstEmpty(hinfo, rs.Results[0])) {
+						continue
+					}
+				}
+				okShape = false
+			case *ast.ReturnStmt:
+				if len(v.Results) != 1 {
+					okShape = false
+					continue
+				}
+				if isCur(v.Results[0]) {
+					continue
+				}
+				if sp, ok := masked(v.Results[0]); ok {
+					seps = append(seps, sp)
+					continue
+				}
+				okShape = false
+			case *ast.DeclStmt:
+			default:
+				okShape = false
+			}
+		}
+	}
+	walk(hf.Decl.Body.List)
+	if !okShape {
+		return nil
+	}
+	return seps
+}
+
+func isConstEmpty(info *types.Info, e ast.Expr) bool {
+	tv, ok := info.Types[e]
+	return ok && tv.Value != nil && tv.Value.Kind() == constant.String && constant.StringVal(tv.Value) == ""
 }
